@@ -263,6 +263,93 @@ theorem retained_is_suffix_across_restarts (B : Nat) (s : St) (segs : List (Cfg 
     ∃ pre, retainedUpTo s.files B ++ (writesOfSegs segs).flatten = pre ++ retainedUpTo (runSegs s segs).files B :=
   runSegs_suffix B s segs hB
 
+/-- … and more generally when MaxBackups only GROWS from restart to restart (MaxSize changes freely): read with any `B`
+    at least as large as every segment's MaxBackups, the files `path-B … path` are a suffix of the initial content
+    followed by everything written — provided no stale backup sits between the first segment's MaxBackups and `B` at the
+    start.  (`retained_is_suffix_across_restarts` is the case of equal limits, where that proviso is empty; the
+    contrast below shows that LOWERING MaxBackups breaks the clause.) -/
+theorem retained_is_suffix_when_maxbackups_grows (B : Nat) (s : St) (segs : List (Cfg × List Op))
+    (hmono : segs.Pairwise (fun x y => x.1.maxBackups ≤ y.1.maxBackups)) (hB : ∀ x ∈ segs, x.1.maxBackups ≤ B)
+    (hempty : ∀ x, segs.head? = some x → ∀ j, x.1.maxBackups < j → j ≤ B → s.files j = none) :
+    ∃ pre, retainedUpTo s.files B ++ (writesOfSegs segs).flatten = pre ++ retainedUpTo (runSegs s segs).files B :=
+  runSegs_suffix_grow B segs s hmono hB hempty
+
+/-- non-vacuity: MaxBackups 1 then 2, one rotation in each segment, nothing lost -/
+example :
+    let segs : List (Cfg × List Op) :=
+      [({ maxSize := 1, maxBackups := 1 }, [.write [1], .write [2]]), ({ maxSize := 1, maxBackups := 2 }, [.write [3]])]
+    retainedUpTo (runSegs (fresh fun _ => none) segs).files 2 = [1, 2, 3] := by
+  rfl
+
+/-- CONTRAST, the hypothesis `hB` of `retained_is_suffix_across_restarts` is needed (and the property's quantifier — ONE
+    MaxSize/MaxBackups per history, "Close/re-open at any point" — does not reach further): when MaxBackups is lowered
+    3 → 1 and raised again across restarts, the B = 1 instance drops `path-1` — the record just before the current one —
+    and never looks at `path-2`, `path-3`; read back with B = 3 the files hold records 1, 2, 4, 5: record 3 is missing
+    from the MIDDLE.  The directory below is what an instance with MaxSize 1, MaxBackups 3 leaves after four one-byte
+    records.  (The same history runs against the Go code in corpus/C12/rot.limitschange.ops: the code does exactly this.) -/
+theorem suffix_lost_when_maxbackups_changes :
+    let f : Files := fun j => if j = 0 then some [4] else if j = 1 then some [3] else if j = 2 then some [2]
+                              else if j = 3 then some [1] else none
+    let segs : List (Cfg × List Op) :=
+      [({ maxSize := 1, maxBackups := 1 }, [.write [5]]), ({ maxSize := 1, maxBackups := 3 }, [])]
+    retainedUpTo f 3 ++ (writesOfSegs segs).flatten = [1, 2, 3, 4, 5] ∧
+    retainedUpTo (runSegs (fresh f) segs).files 3 = [1, 2, 4, 5] ∧
+    (¬ ∃ pre, retainedUpTo f 3 ++ (writesOfSegs segs).flatten = pre ++ retainedUpTo (runSegs (fresh f) segs).files 3) ∧
+    -- inside the B = 1 segment the clause holds, read with THAT segment's MaxBackups (`retained_is_suffix`)
+    retainedUpTo (runSegs (fresh f) (segs.take 1)).files 1 = [4, 5] := by
+  intro f segs
+  have h1 : retainedUpTo f 3 ++ (writesOfSegs segs).flatten = [1, 2, 3, 4, 5] := by rfl
+  have h2 : retainedUpTo (runSegs (fresh f) segs).files 3 = [1, 2, 4, 5] := by rfl
+  refine ⟨h1, h2, ?_, by rfl⟩
+  rw [h1, h2]
+  rintro ⟨pre, h⟩
+  have : [1, 2, 4, 5] <:+ [1, 2, 3, 4, 5] := ⟨pre, h.symm⟩
+  revert this
+  decide
+
+/-- clause "at most MaxBackups backups exist" — what the code does and does not do: it never CREATES or touches an index
+    above MaxBackups (`backup_frame`), and for the same reason it never PRUNES one: a backup beyond MaxBackups (left by an
+    instance with a larger limit) stays, unchanged, for ever.  `backup_count` therefore needs its hypothesis `h0`. -/
+theorem stale_backups_are_never_pruned (cfg : Cfg) (s : St) (ops : List Op) (j : Nat) (g : Bytes)
+    (hj : cfg.maxBackups < j) (h : s.files j = some g) : (run cfg s ops).files j = some g := by
+  rw [run_frame cfg s ops j hj]; exact h
+
+/-- … concretely (non-vacuity of the above, and CONTRAST to `backup_count` without `h0`): three backups were made with
+    MaxBackups 3 (the directory below); the next instance runs with MaxBackups 1 and rotates — three backups exist, two
+    of them beyond the limit (corpus/C12/rot.limitschange.ops: the Go code leaves them too) -/
+theorem lowering_maxbackups_never_prunes :
+    let f : Files := fun j => if j = 0 then some [4] else if j = 1 then some [3] else if j = 2 then some [2]
+                              else if j = 3 then some [1] else none
+    let s := run { maxSize := 1, maxBackups := 1 } (fresh f) [.write [5]]
+    (s.files 0, s.files 1, s.files 2, s.files 3) = (some [5], some [4], some [2], some [1]) := by
+  rfl
+
+/-- CONTRAST for restarts with the SAME limits (`retained_is_suffix_across_restarts`, `retained_is_suffix` from any
+    directory): the rotation must shift ALL slots `MaxBackups … 1`, whatever this instance has written itself.  The
+    variant that shifts only the slots it has filled (`Rot.rotateFilesCounting`, a per-instance counter starting at 0)
+    renames the current file OVER `path-1` on the first rotation after a restart: with `[1]`,`[2]`,`[3]` left by the
+    previous run (MaxBackups 2) the files read `[1],[3]` — `[2]` is lost from the middle; the code's chain gives `[2],[3]`.
+    On a directory that was empty at the start the two agree (slots 0, 1, 2). -/
+theorem restart_must_shift_all_slots :
+    let cfg : Cfg := { maxSize := 1, maxBackups := 2 }
+    let f : Files := fun j => if j = 0 then some [3] else if j = 1 then some [2] else if j = 2 then some [1] else none
+    retainedUpTo f 2 = [1, 2, 3] ∧
+    retainedUpTo (rotateFilesCounting cfg 0 f) 2 = [1, 3] ∧
+    (¬ ∃ pre, retainedUpTo f 2 = pre ++ retainedUpTo (rotateFilesCounting cfg 0 f) 2) ∧
+    retainedUpTo (rotateFiles cfg f) 2 = [2, 3] ∧
+    (let g : Files := fun i => if i = 0 then some [3] else none
+     (rotateFilesCounting cfg 0 g 0, rotateFilesCounting cfg 0 g 1, rotateFilesCounting cfg 0 g 2)
+       = (rotateFiles cfg g 0, rotateFiles cfg g 1, rotateFiles cfg g 2)) := by
+  intro cfg f
+  have h1 : retainedUpTo f 2 = [1, 2, 3] := by rfl
+  have h2 : retainedUpTo (rotateFilesCounting cfg 0 f) 2 = [1, 3] := by rfl
+  refine ⟨h1, h2, ?_, by rfl, by rfl⟩
+  rw [h1, h2]
+  rintro ⟨pre, h⟩
+  have : [1, 3] <:+ [1, 2, 3] := ⟨pre, h.symm⟩
+  revert this
+  decide
+
 /-! ## concurrent goroutines — theorems about the bracketed machine
 
 `Model/Mutex.lean` is a generic small-step machine: every goroutine runs its own list of calls, every call is
